@@ -27,16 +27,16 @@ FIXED = [
 def run_taskset_part(ctx):
     thorough = ctx.tier == 'thorough'
     exe = tc.build(ctx)
-    tc.check_models(ctx, [('MC_ts2.cfg', 'TaskSet on 2 workers: schedule(FQ), scheduleBulk(FQ), ring fast path')] +
-                    ([('MC_exc2.cfg', 'ConcurrentTaskSet schedule(FQ) x2 on 2 workers')] if thorough else []), WHAT)
+    tc.check_models(ctx, 'MC_c47_thorough.cfg' if thorough else 'MC_c47_quick.cfg', WHAT,
+                    'TaskSet on 2 workers: schedule(FQ), scheduleBulk(FQ), ring fast path' + ('; ConcurrentTaskSet FQ x2; kHeavy' if thorough else ''))
     rng = random.Random(ctx.seed * 7919 + 47)
     g = tc.Gen(rng)
-    scens = list(FIXED)
+    scens = []
     for _ in range(30 if thorough else 3):
         s = g.single(throws=0.0, cancel=0.1, nested=0.3, pools=(1, 2, 3))
         scens.append(s.replace('mult=32', 'mult=1'))
-    r = tc.run_scenarios(ctx, exe, scens, WHAT, 6 if thorough else 2, ctx.seed + 47, 'task sets: force-queued submissions')
-    ctx.cov.setdefault('executions', {})['taskset_fq'] = r['executions']
+    r = tc.run_scenarios(ctx, exe, [('task sets: force-queued submissions', FIXED, 6 if thorough else 2),
+                                    ('task sets: random programs, load multiplier 1', scens, 6 if thorough else 2)], WHAT, ctx.seed + 47)
     ctx.assumptions += ['task-set part: ' + a for a in tc.ASSUME[:2]]
     return r
 
